@@ -380,9 +380,21 @@ class SymRatio:
 
 # ------------------------------------------------------------------ shadowed builtins
 def sym_int(x=0, *a):
+    if isinstance(x, SymRatio) and not (isinstance(x.b, int) and x.b > 0 and (x.b & (x.b - 1)) == 0):
+        # general int(a / b): binary64 division followed by truncation toward zero.  It equals the exact truncated quotient
+        # only while both operands are exactly representable and the quotient cannot round across an integer: obligation
+        # |a|, |b| < 2^53 (kind float-exact); division by zero is ZeroDivisionError.
+        a = x.a if isinstance(x.a, SymInt) else SymInt(lift(x.a, x.b.t if isinstance(x.b, SymInt) else None))
+        bt = lift(x.b, a.t)
+        at = a.t
+        lim = lift(1 << 53, at)
+        E.cur().side("no-exception", bt != 0, "ZeroDivisionError")
+        E.cur().side("float-exact", z3.And(at > -lim, at < lim, bt > -lim, bt < lim), "int(a / b) through binary64 needs |a|, |b| < 2^53")
+        if z3.is_bv(at):
+            return wrap(at / bt)          # signed bit-vector division truncates toward zero
+        q = z3.If(at >= 0, z3.If(bt > 0, at / bt, -(at / -bt)), z3.If(bt > 0, -((-at) / bt), (-at) / (-bt)))
+        return wrap(q)
     if isinstance(x, SymRatio):
-        if not (isinstance(x.b, int) and x.b > 0 and (x.b & (x.b - 1)) == 0):
-            raise Unsupported("true division by something other than a positive power of two")
         if not isinstance(x.a, SymInt):
             return builtins.int(x.a / x.b)
         at = x.a.t
